@@ -8,6 +8,8 @@ Deductive parts (real functions, all branches):
   build_from_world            termination of the variant-naming loop for EVERY name (opaque strings, divergence detection), new name != old
                               name, and the frame: no write reaches the caller's config dictionaries (abstract heap with ownership)
   nested_merge / clean_world_config   frame under make_copies / make_copy = True (generic iteration, recursive call by contract)
+  LayeredWorld.reinit         world-level assembly on layer stubs: concatenation in layer order of each layer's own arrays, world mass / radius
+                              / tidal scale, call order
 Bounded (labelled, never counted as proved): the OOP assembly of whole worlds and the slice arrays, run natively on shipped + random configs.
 """
 import ast, itertools
@@ -33,12 +35,13 @@ def build(tier="quick", seed=0):
     physical_geometry(b)
     physical_slices(b)
     layer_mass_below(b)
+    world_assembly(b)
     scaling(b)
     naming_and_frame(b)
     bounded_assembly(b, tier, seed)
     b.assume("opaque strings: f-strings with a non-empty literal differ from their string arguments and are injective in their integer arguments; '_variant' in s and s.split(..)[0] are uninterpreted")
     b.assume("abstract heap: dictionaries are objects with ownership; copy.deepcopy returns a fresh object graph; build_world deep-copies its configuration argument before any use (checked on its source)")
-    b.assume("np.pi is the real number pi; slice arrays (np.linspace, cumulative sums) and the OOP assembly of LayeredWorld are covered by the bounded native run only")
+    b.assume("np.pi is the real number pi; LayeredWorld.reinit is executed on 1-3 layer stubs (super().reinit, set_geometry, set_static_pressure are recording stubs; np.concatenate is list concatenation); the slice arrays themselves (np.linspace, cumulative sums inside each layer) and the assembly of whole shipped worlds are covered by the bounded native run only")
     return b
 
 
@@ -235,6 +238,89 @@ def layer_mass_below(b):
         b.add(Obligation(oid=f"{mfn.key}::ensures:mass_below[layers={nlayers}]", fn=mfn.key,
                          clause=f"ensures the mass passed as mass_below for layer {idx} == sum of the masses of layers 0..{idx - 1} (enclosed mass never decreases with radius for non-negative masses)",
                          goal=sp.Eq(sp.sympify(rec["mass_below"]), sum(masses[:idx], sp.Integer(0))), hyps=[]))
+
+FLW = "TidalPy/structures/world_types/layered.py"
+_ARR = ("radii", "volume_slices", "sa_slices", "depths", "mass_slices", "mass_below_slices", "density_slices", "gravity_slices")
+
+
+def world_assembly(b):
+    """LayeredWorld.reinit (the world-level assembly) executed from the real source on 1..3 layer stubs whose attributes are symbols: every layer is
+    re-initialised with its geometry, in order; the world's slice arrays are the concatenation, in layer order, of each layer's OWN array of the same
+    name; the mass handed to set_geometry is the configured mass or, when none is configured, the sum of the layer masses; the radius is the
+    configured one; the tidal scale is the sum over the tidal layers.  super().reinit, set_geometry and set_static_pressure are recording stubs."""
+    base = ClassModel("PhysicalObjSpherical", FP)
+    cls = ClassModel("LayeredWorld", FLW, bases=[base])
+    c, node = cls.lookup("methods", "reinit")
+    if node is None:
+        b.subset_exits.append(f"{FLW}::LayeredWorld.reinit: method not found")
+        return
+    mfn = MethodFn(c, node)
+    b.functions[mfn.key] = mfn.info()
+    for nlayers in (1, 2, 3):
+        for mass_given in (False, True):
+            tag = f"{mfn.key}::assembly[layers={nlayers};mass_{'given' if mass_given else 'derived'}]"
+            calls, layers = [], []
+            for k in range(nlayers):
+                def mk_reinit(k_):
+                    def reinit_(ex, node_, *a, **kw):
+                        calls.append(("layer.reinit", k_, a, dict(kw)))
+                    return reinit_
+                attrs = {nm: [R(f"L{k}_{nm}_{j}") for j in range(2)] for nm in _ARR}
+                layers.append(Obj(None, name=f"layer{k}", layer_index=sp.Integer(k), radius=R(f"layer_radius_{k}"), thickness=R(f"layer_thickness_{k}"), volume=R(f"layer_volume_{k}"), mass=R(f"layer_mass_{k}"), is_tidal=(k != 0 or nlayers == 1), tidal_scale=R(f"tidal_scale_{k}"), reinit=mk_reinit(k), **attrs))
+            Rw, Mw = R("config_radius"), R("config_mass")
+            cfg = {"radius": Rw, "layers": {}, "store_tides_config_in_world": True}
+            if mass_given:
+                cfg["mass"] = Mw
+
+            def set_geo(ex, node_, *a, **kw):
+                calls.append(("set_geometry", a, dict(kw)))
+
+            def set_pressure(ex, node_, *a, **kw):
+                calls.append(("set_static_pressure", a, dict(kw)))
+
+            def super_reinit(self_, *a, **kw):
+                calls.append(("super.reinit", a, dict(kw)))
+            o = Obj(cls, config=cfg, _config=cfg, layers=tuple(layers), _layers=tuple(layers), tides_on=False, pressure_above=R("p_above"),
+                    set_geometry=set_geo, set_static_pressure=set_pressure)
+            npns = Namespace("np", dict(concatenate=lambda ex, node_, seq, *a, **k: [x_ for part in seq for x_ in part], pi=T.PI))
+            ex = Exec(mfn, contracts={"=super.reinit": Contract("=super.reinit", None, None, result=super_reinit)}, globals_env=dict(np=npns))
+            try:
+                paths = ex.run(dict(self=o, initial_init=True, setup_simple_tides=False, reinit_layers=True))
+            except SymExError as e:
+                b.subset_exits.append(f"{mfn.key} [layers={nlayers}]: {e}")
+                return
+            if len(paths) != 1 or paths[0].outcome != "return":
+                ground(b, tag + "::noraise", mfn.key, "the assembly returns on a single path for a valid stack", False, detail=str([p_.outcome for p_ in paths]))
+                continue
+            lre = [c_ for c_ in calls if c_[0] == "layer.reinit"]
+            ground(b, tag + "::layers_reinitialised", mfn.key, "every layer is re-initialised once, bottom to top, with initialize_geometry=True",
+                   [c_[1] for c_ in lre] == list(range(nlayers)) and all(c_[3].get("initialize_geometry") is True or (len(c_[2]) > 1 and c_[2][1] is True) for c_ in lre), detail=str(lre)[:300])
+            for nm in _ARR:
+                got = o._attrs.get("_" + nm)
+                want = [x_ for L in layers for x_ in L._attrs[nm]]
+                ground(b, tag + f"::concatenates[{nm}]", mfn.key, f"ensures world.{nm} == the layers' own {nm}, concatenated bottom to top", isinstance(got, list) and got == want, detail=str(got)[:300])
+            ground(b, tag + "::num_slices", mfn.key, "ensures num_slices == total number of layer slices", o._attrs.get("_num_slices") in (2 * nlayers, sp.Integer(2 * nlayers)), detail=str(o._attrs.get("_num_slices")))
+            geo = [c_ for c_ in calls if c_[0] == "set_geometry"]
+            if len(geo) != 1:
+                ground(b, tag + "::set_geometry_once", mfn.key, "the world's geometry is set exactly once", False, detail=str(geo)[:300])
+                continue
+            ga, gk = geo[0][1], geo[0][2]
+            radius_arg = ga[0] if len(ga) > 0 else gk.get("radius")
+            mass_arg = ga[1] if len(ga) > 1 else gk.get("mass")
+            mbelow = gk.get("mass_below", ga[3] if len(ga) > 3 else None)
+            want_mass = Mw if mass_given else sum((L._attrs["mass"] for L in layers), sp.Integer(0))
+            b.add(Obligation(oid=tag + "::world_mass", fn=mfn.key, clause="ensures the mass given to the world's geometry is the configured mass, or the sum of the layer masses when none is configured",
+                             goal=sp.Eq(sp.sympify(mass_arg), want_mass), hyps=[], meta=dict(mass=str(mass_arg))))
+            b.add(Obligation(oid=tag + "::world_radius", fn=mfn.key, clause="ensures the radius given to the world's geometry is the configured radius (top of the stack)",
+                             goal=sp.Eq(sp.sympify(radius_arg), Rw), hyps=[], meta=dict(radius=str(radius_arg))))
+            b.add(Obligation(oid=tag + "::nothing_below", fn=mfn.key, clause="ensures the world has no mass below it (surface gravity G M / R^2)",
+                             goal=sp.Eq(sp.sympify(mbelow if mbelow is not None else 1), 0), hyps=[], meta=dict(mass_below=str(mbelow))))
+            want_ts = sum((L._attrs["tidal_scale"] for L in layers if L._attrs["is_tidal"]), sp.Integer(0))
+            b.add(Obligation(oid=tag + "::tidal_scale", fn=mfn.key, clause="ensures world.tidal_scale == sum of the tidal layers' volume fractions",
+                             goal=sp.Eq(sp.sympify(o._attrs.get("tidal_scale", -1)), want_ts), hyps=[], meta=dict(tidal_scale=str(o._attrs.get("tidal_scale")))))
+            order = [c_[0] for c_ in calls]
+            ground(b, tag + "::order", mfn.key, "layers are re-initialised before the world's geometry is set, and the pressure is set after it",
+                   order.index("set_geometry") > max(i_ for i_, c_ in enumerate(order) if c_ == "layer.reinit") and "set_static_pressure" in order and order.index("set_static_pressure") > order.index("set_geometry"), detail=str(order))
 
 
 def scaling(b):
